@@ -1,7 +1,7 @@
 """Shared pieces of the eight sequencer-engine properties (C01-C04, C06-C08, C17)."""
 
 SEQ_ASSUMPTIONS = [
-    "object-store contract: an Upload/Discard/Fetch is atomic (takes effect or not at the moment it returns); immutable objects refuse different bytes (Backend interface contract as LocalBackend enforces it; S3Backend's hedged PUTs are outside the model)",
+    "object-store contract: an Upload/Discard/Fetch is atomic (takes effect or not at the moment it returns); immutable objects refuse different bytes (Backend interface contract as LocalBackend enforces it; for S3Backend 'nil means stored' is C04_s3_upload_ok_means_stored + engine s3 of the C04 check; the order in which hedged PUTs of different uploads land is outside the model)",
     "lock-store contract: Fetch/Create/Replace are atomic compare-and-swap steps (C05 is the property about the real backends)",
     "a process crash is modelled as abandoning the instance between two store operations; a torn operation is the applied/not-applied choice",
     "SHA-256 collision resistance and signature unforgeability (checkpoints are compared as (size, root, timestamp, signature-validity) tuples parsed by an independent reader)",
